@@ -95,6 +95,11 @@ add("C17", "fault_enumeration",
     "exhaustive single-fault injection over property-based generated histories, metamorphic oracle (fault-free run)", "DESIGN.md §5 C17")
 
 NOT_YET = {}
+# thorough tier: coverage-guided search over the generator's choice sequences (fuzz target `choice`)
+CHOICE_FUZZ = {"C02": "struct", "C03": "ranges", "C04": "random", "C05": "tables", "C09": "tables", "C10": "equiv", "C11": "wellformed, sound", "C12": "wellformed, sound", "C13": "versions", "C14": "notes", "C15": "random", "C17": "faults", "C20": "paths, damaged"}
+for pid, subs in CHOICE_FUZZ.items():
+    P[pid]["technique"] += "; thorough tier adds coverage-guided fuzzing (libFuzzer) of the same oracle over the generator's choice sequences"
+    P[pid]["text"] += f" In the thorough tier libFuzzer additionally drives the sub-check(s) {subs} with the fuzz input as the generator's choice sequence (coverage feedback from the crate and the generator), a crash being replayed, shrunk and saved as an ordinary replay file."
 allp = [json.loads(l)["id"] for l in open("properties.jsonl")]
 checks = []
 for pid in allp:
